@@ -253,7 +253,7 @@ pub fn check_case(c: &Case) -> Result<CaseInfo, Failure> {
 }
 
 pub fn run(ctx: &Ctx, started: Instant) -> i32 {
-    let per_shard = ctx.tier.pick(2_500u32, 60_000);
+    let per_shard = ctx.tier.pick(6_000u32, 100_000);
     let stats = par_shards(WORKERS, |shard| {
         let mut st = Stats::default();
         run_proptest_bed("C13", ctx.sub_seed("rand", shard), per_shard, &case_strategy(Role::ALL[shard % 4]), &mut st, |c| json!({"case": c}), run_case);
